@@ -269,6 +269,19 @@ def run_impl(case):
     kwargs = dict(data=df, group_columns=group_columns(case), label_column="label", score_column="score", metric=case["metric"],
                   normalize=case["normalize"], pos_label=case["pos_label"], score_class=case["sc"], equal_class=case["ec"],
                   threshold=threshold)
+    # history: the same DataFrame object was analysed before with its group values rotated among the rows; the columns are
+    # then put back in place (same object, same length) for the observed call
+    if len(df) >= 2:
+        saved = {c: df[c].copy() for c in df.columns if c.startswith("g")}
+        try:
+            for c in saved:
+                df[c] = list(saved[c].iloc[1:]) + list(saved[c].iloc[:1])
+            SB.showbias(**dict(kwargs, normalize=None))
+        except Exception:
+            pass
+        finally:
+            for c in saved:
+                df[c] = saved[c].values
     boot = case["boot"]
     if boot is None:
         bf = SB.showbias(**kwargs)
